@@ -203,7 +203,7 @@ pub fn judge(sc: &SchedScenario, mut x: Execution, want: &[&str]) -> SchedOutcom
         }
         runs.hash(&mut h);
         // settle and check ownership
-        let fr = std::panic::catch_unwind(std::panic::AssertUnwindSafe(|| futures::executor::block_on(x.world.dev().flush_meta())));
+        let fr = std::panic::catch_unwind(std::panic::AssertUnwindSafe(|| crate::world::block_on(x.world.dev().flush_meta())));
         if let Ok(Ok(())) = fr {
             let rep = crate::spec::check_image(&x.world.sim.borrow().files[0]);
             if let Some((c, d)) = rep.first_problem(false) {
@@ -342,7 +342,7 @@ pub fn judge(sc: &SchedScenario, mut x: Execution, want: &[&str]) -> SchedOutcom
 
     // ---- content survives flush + reopen (C06 / C02) ----
     if has("C06") || has("C02") {
-        let fr = std::panic::catch_unwind(std::panic::AssertUnwindSafe(|| futures::executor::block_on(x.world.dev().flush_meta())));
+        let fr = std::panic::catch_unwind(std::panic::AssertUnwindSafe(|| crate::world::block_on(x.world.dev().flush_meta())));
         match fr {
             Ok(Ok(())) => {
                 let sim2 = Sim::new(x.world.sim.borrow().files.clone());
@@ -406,7 +406,7 @@ pub fn read_all(dev: &Dev, vsize: usize, bs: usize) -> Vec<Option<u64>> {
         for x in b.iter_mut() {
             *x = 0x5a;
         }
-        let r = std::panic::catch_unwind(std::panic::AssertUnwindSafe(|| futures::executor::block_on(dev.read_at(&mut b, off as u64))));
+        let r = std::panic::catch_unwind(std::panic::AssertUnwindSafe(|| crate::world::block_on(dev.read_at(&mut b, off as u64))));
         if let Ok(Ok(n)) = r {
             if n == len {
                 for (i, w) in decode_read(&b).into_iter().enumerate() {
